@@ -54,7 +54,31 @@ fn strat(topo: Topo, small: bool, max_inputs: usize) -> impl Strategy<Value = Ca
 
 const BUDGET: Duration = Duration::from_secs(180);
 
+thread_local! {
+    /// set once a case failed on this worker thread: shrinking and the final re-judgement then give every
+    /// case several tries (same case, same seed), because whether a schedule-dependent failure shows up
+    /// is up to the OS scheduler.  More tries can only find more real failures.
+    static RETRY: std::cell::Cell<bool> = const { std::cell::Cell::new(false) };
+}
+static EXECUTIONS: std::sync::atomic::AtomicU64 = std::sync::atomic::AtomicU64::new(0);
+
 fn run(c: &Case) -> Outcome {
+    let tries = if RETRY.with(|r| r.get()) { 4 } else { 1 };
+    let mut last = run_once(c);
+    for _ in 1..tries {
+        if last.is_fail() {
+            break;
+        }
+        last = run_once(c);
+    }
+    if last.is_fail() {
+        RETRY.with(|r| r.set(true));
+    }
+    last
+}
+
+fn run_once(c: &Case) -> Outcome {
+    EXECUTIONS.fetch_add(1, std::sync::atomic::Ordering::Relaxed);
     let p = &c.prog;
     if p.cross_edges().is_empty() || p.used_ctxs().len() < 2 {
         return Outcome::discard("no cross-context derived stream");
@@ -185,6 +209,12 @@ fn run(c: &Case) -> Outcome {
     for s in &p.streams {
         o = o.class(format!("op:{}", s.op.kind()));
     }
+    let mut notes = p.notes.clone();
+    notes.sort();
+    notes.dedup();
+    for n in notes {
+        o = o.class(n);
+    }
     for (_, cons) in p.cross_edges() {
         if p.streams[cons].op.stateful() {
             o = o.class("stateful_cross_consumer");
@@ -212,12 +242,12 @@ fn main() {
     check.assume("H5 accounting (pending counter) is the completion criterion; tokio mpsc channels are FIFO per sender");
     check.assume("thread schedules are sampled (seeded perturbation on top of the OS scheduler); a pass is evidence, not a proof over all schedules");
     let max_inputs = check.pick(150, 200);
-    let clean = Topo { max_streams: 6, fanout: false, local_derived: false, pure_ingress: false, seq_over_remote_transform: false };
-    check.explore("ample_capacity", move || strat(clean, false, max_inputs), 160, 2400, run);
+    let clean = Topo { max_streams: 6, fanout: false, local_derived: true, pure_ingress: false, seq_over_remote_transform: false };
+    check.explore("ample_capacity", move || strat(clean, false, max_inputs), 260, 4000, run);
     check.explore("small_capacity", move || strat(clean, true, max_inputs), 120, 1800, run);
-    let local = Topo { max_streams: 6, fanout: false, local_derived: true, pure_ingress: false, seq_over_remote_transform: false };
-    check.explore("local_derived", move || strat(local, false, max_inputs), 60, 800, run);
-    let fan = Topo { max_streams: 6, fanout: true, local_derived: false, pure_ingress: false, seq_over_remote_transform: false };
-    check.explore("fanout", move || strat(fan, false, max_inputs), 60, 800, run);
+    // the fan-out class is a recorded finding; this small sub-check keeps looking for anything else in it
+    let fan = Topo { max_streams: 6, fanout: true, local_derived: true, pure_ingress: false, seq_over_remote_transform: false };
+    check.explore("fanout", move || strat(fan, false, max_inputs), 40, 400, run);
+    check.extra("executions", serde_json::json!(EXECUTIONS.load(std::sync::atomic::Ordering::Relaxed)));
     check.finish();
 }
